@@ -38,6 +38,7 @@ type c10Case struct {
 	Op  string        `json:"op"`
 	A   []interface{} `json:"a"`
 	Gmt int           `json:"gmt"`
+	Tmt []interface{} `json:"tmt"` // type metatables for this case: [[tag, heap ref], ...], tag n|b|nil|bi|s
 }
 
 type c10Env struct {
@@ -53,6 +54,7 @@ type c10Env struct {
 	plainF *lua.LFunction
 	gnames map[string]bool
 	was    map[int]string // world table -> canonical JSON of its described content
+	strmt  lua.LValue     // the original string metatable
 }
 
 func c10Bytes(x interface{}) string {
@@ -165,7 +167,7 @@ func (e *c10Env) build(gmt int) {
 		case o.Builtin == "G":
 			v = L.G.Global
 		case o.Builtin == "smt":
-			v = L.GetMetatable(lua.LString(""))
+			v = e.strmt
 		case o.Builtin == "string":
 			v = L.GetGlobal("string")
 		case o.O == "tab":
@@ -207,6 +209,37 @@ func (e *c10Env) build(gmt int) {
 		} else if o.MT != 0 {
 			e.objs[i].(*lua.LUserData).Metatable = e.objs[o.MT-1]
 		}
+	}
+}
+
+// sample value of the type a tag stands for (type metatables are per type)
+func (e *c10Env) sample(tag string) lua.LValue {
+	switch tag {
+	case "n":
+		return lua.LNumber(0)
+	case "b":
+		return lua.LTrue
+	case "nil":
+		return lua.LNil
+	case "bi":
+		return e.plainF
+	case "s":
+		return lua.LString("")
+	}
+	panic("c10 harness: bad type tag " + tag)
+}
+
+func (e *c10Env) setTypeMts(tmt []interface{}, install bool) {
+	for _, x := range tmt {
+		p := x.([]interface{})
+		tag := p[0].(string)
+		var mt lua.LValue = lua.LNil
+		if install {
+			mt = e.objs[tokInt(p[1])-1]
+		} else if tag == "s" {
+			mt = e.strmt
+		}
+		e.L.SetMetatable(e.sample(tag), mt)
 	}
 }
 
@@ -316,6 +349,24 @@ func (e *c10Env) runAPI(c *c10Case) map[string]interface{} {
 			res = append(res, Tok{"n", L.ObjLen(a[0])})
 		case "GetMetatable":
 			res = append(res, e.tok(L.GetMetatable(a[0])))
+		case "RawMetatable": // the metatable itself, whatever __metatable says (tables / userdata)
+			switch o := a[0].(type) {
+			case *lua.LTable:
+				res = append(res, e.tok(o.Metatable))
+			case *lua.LUserData:
+				res = append(res, e.tok(o.Metatable))
+			default:
+				panic("c10 harness: RawMetatable of " + a[0].Type().String())
+			}
+		case "ProtectedSet": // setmetatable() reached through the Go call API: refuses a protected metatable
+			t1 := L.GetTop()
+			L.Push(L.GetGlobal("setmetatable"))
+			L.Push(a[0])
+			L.Push(a[1])
+			L.Call(2, 1)
+			r := L.Get(-1)
+			L.SetTop(t1)
+			res = append(res, e.tok(r), e.tok(a[0].(*lua.LTable).Metatable))
 		case "ToStringMeta":
 			res = append(res, e.tok(L.ToStringMeta(a[0])))
 		case "Next":
@@ -411,6 +462,10 @@ func (e *c10Env) runLua(c *c10Case) map[string]interface{} {
 		src, args = "return function(a) return #a end", a
 	case "GetMetatable":
 		src, args = "return function(a) return getmetatable(a) end", a
+	case "RawMetatable":
+		src, args = "return function(a) return debug.getmetatable(a) end", a
+	case "ProtectedSet":
+		src, args, nret = "return function(a,m) local r = setmetatable(a,m) return r, debug.getmetatable(a) end", a, 2
 	case "ToStringMeta":
 		src, args = "return function(a) return tostring(a) end", a
 	case "Next":
@@ -463,6 +518,7 @@ func c10Obj(args []string) int {
 	defer L.Close()
 	e := &c10Env{L: L, luafn: map[string]*lua.LFunction{}}
 	e.strlen = L.GetField(L.GetGlobal("string"), "len")
+	e.strmt = L.GetMetatable(lua.LString(""))
 	e.plainF = L.NewFunction(func(L *lua.LState) int { return 0 })
 	for ci := range in0.Cases {
 		c := &in0.Cases[ci]
@@ -474,8 +530,11 @@ func c10Obj(args []string) int {
 		for _, p := range e.w.Ret {
 			e.ret[p[0].(string)] = asTok(p[1])
 		}
-		rec := map[string]interface{}{"id": c.ID, "w": c.W, "op": c.Op, "a": c.A, "gmt": c.Gmt}
-		mutating := c.Op == "SetTable" || c.Op == "SetField" || c.Op == "SetGlobal"
+		if c.Tmt == nil {
+			c.Tmt = []interface{}{}
+		}
+		rec := map[string]interface{}{"id": c.ID, "w": c.W, "op": c.Op, "a": c.A, "gmt": c.Gmt, "tmt": c.Tmt}
+		mutating := c.Op == "SetTable" || c.Op == "SetField" || c.Op == "SetGlobal" || c.Op == "ProtectedSet"
 		e.gnames = map[string]bool{}
 		if c.Op == "GetGlobal" || c.Op == "SetGlobal" {
 			e.gnames[c10Name(asTok(c.A[0]))] = true
@@ -497,6 +556,8 @@ func c10Obj(args []string) int {
 					e.cleanGlobals()
 					e.build(c.Gmt)
 				}
+				e.setTypeMts(c.Tmt, true)
+				defer e.setTypeMts(c.Tmt, false)
 				var o map[string]interface{}
 				if side == "api" {
 					o = e.runAPI(c)
